@@ -29,6 +29,7 @@ The templates are not hygienic: `temp`, `x`, `atom-key` are bound in a child fra
 user's remaining sub-forms are evaluated; the rules say so explicitly.
 -/
 import RuschmProofs.MeaningLemmas
+import RuschmProofs.C11
 
 namespace Ruschm.C05Meaning
 open Ruschm Ruschm.Eval Ruschm.Xform Ruschm.Macro Ruschm.Meaning Ruschm.C05
@@ -720,4 +721,222 @@ theorem case_arrow_last_meaning {env l₁ rest l key c as atoms a r e} (hstd : S
           fun htv => Means.cond_void hbe htv⟩
   · cases hr'
 
+/-! ## non-vacuity
+
+Every theorem is instantiated on a concrete form that the REAL transformer turns into an expression
+in the interpreter's own syntax environment `[[], Interp.grammarScope]` (`stdSyn_default`); for some the
+rule is then used to evaluate the expression. `xe_of d` runs the transformer on `d`. -/
+
+section Examples
+open Ruschm.Macro.Ex
+
+/-- `f`, `zz` in operator position make ordinary calls in the interpreter's syntax environment -/
+theorem ordinary_sym (s : String) (h₁ : s ∉ coreKeywords) (h₂ : SynEnv.get? [[], Interp.grammarScope] s = none) :
+    Ordinary [[], Interp.grammarScope] (sy s) := by
+  intro s' l h; cases h; exact ⟨h₁, h₂⟩
+
+local macro "xe_of " d:term : term => `((⟨_, 300, rfl⟩ : ∃ e, XE [[], Interp.grammarScope] $d e))
+
+set_option maxRecDepth 100000
+
+/-- `when_meaning`, `unless_meaning` on `(when t 1 2)`, `(unless t 1)` -/
+example : True := by
+  obtain ⟨e, hx⟩ := xe_of (lst [sy "when", sy "t", num 1, num 2])
+  have := when_meaning stdSyn_default (l₁ := none) (l := none) (rest := lst [sy "t", num 1, num 2]) (test := sy "t")
+    (body := [num 1, num 2]) rfl (by simp) (noDefs_atoms rfl) hx
+  obtain ⟨e', hx'⟩ := xe_of (lst [sy "unless", sy "t", num 1])
+  have := unless_meaning stdSyn_default (l₁ := none) (l := none) (rest := lst [sy "t", num 1]) (test := sy "t")
+    (body := [num 1]) rfl (by simp) (noDefs_atoms rfl) hx'
+  trivial
+
+/-- `or_meaning`: `(or #f 2 zz)` is `2`; the unbound `zz` is not evaluated -/
+example : ∃ e, XE [[], Interp.grammarScope] (lst [sy "or", .prim (.bool false) none, num 2, sy "zz"]) e ∧
+    ∃ τ, Means {} 0 e (.num (.int 2)) τ := by
+  obtain ⟨e, hx⟩ := xe_of (lst [sy "or", .prim (.bool false) none, num 2, sy "zz"])
+  obtain ⟨tes, hb, rule⟩ := or_meaning stdSyn_default [.prim (.bool false) none, num 2, sy "zz"]
+    (l₁ := none) (l := none) (rest := lst [.prim (.bool false) none, num 2, sy "zz"]) rfl hx
+  cases hb with
+  | cons h₁ t =>
+    cases t with
+    | cons h₂ t₂ =>
+      cases t₂ with
+      | cons h₃ t₃ =>
+        cases t₃
+        have e₁ := h₁.prim_inv; have e₂ := h₂.prim_inv
+        subst e₁ e₂
+        exact ⟨e, hx, _, rule {} 0 _ _ (.next (Means.prim rfl) rfl (.stop (Means.prim rfl) rfl))⟩
+
+/-- `let_meaning` on `(let ((a 1) (b 2)) a)`: the value is `1` -/
+example : ∃ e, XE [[], Interp.grammarScope] (lst [sy "let", lst [lst [sy "a", num 1], lst [sy "b", num 2]], sy "a"]) e ∧
+    ∃ τ, Means {} 0 e (.num (.int 1)) τ := by
+  obtain ⟨e, hx⟩ := xe_of (lst [sy "let", lst [lst [sy "a", num 1], lst [sy "b", num 2]], sy "a"])
+  obtain ⟨ves, bes, hv, hb, rule⟩ := let_meaning stdSyn_default (l₁ := none) (l := none)
+    (rest := lst [lst [lst [sy "a", num 1], lst [sy "b", num 2]], sy "a"])
+    (bs := lst [lst [sy "a", num 1], lst [sy "b", num 2]]) (bds := [lst [sy "a", num 1], lst [sy "b", num 2]])
+    (nvs := [(sy "a", num 1), (sy "b", num 2)]) (body := [sy "a"]) rfl rfl (.cons rfl (.cons rfl .nil)) (by simp)
+    (noDefs_atoms rfl) hx
+  cases hv with
+  | cons h₁ t =>
+    cases t with
+    | cons h₂ t₂ =>
+      cases t₂
+      cases hb with
+      | cons h₃ t₃ =>
+        cases t₃
+        have e₁ := h₁.prim_inv; have e₂ := h₂.prim_inv; have e₃ := h₃.sym_inv
+        subst e₁ e₂ e₃
+        exact ⟨e, hx, _, rule {} 0 [.num (.int 1), .num (.int 2)] _ _ _
+          (.cons (Means.prim rfl) (MeansList.one (Means.prim rfl)))
+          (.one (Means.sym (Store.lookup_pushFrame_here rfl)))⟩
+
+/-- `letstar_meaning` on `(let* ((a 1) (b a)) b)`: `b`'s initialiser sees `a`; the value is `1` -/
+example : ∃ e, XE [[], Interp.grammarScope] (lst [sy "let*", lst [lst [sy "a", num 1], lst [sy "b", sy "a"]], sy "b"]) e ∧
+    ∃ τ, Means {} 0 e (.num (.int 1)) τ := by
+  obtain ⟨e, hx⟩ := xe_of (lst [sy "let*", lst [lst [sy "a", num 1], lst [sy "b", sy "a"]], sy "b"])
+  obtain ⟨bnds, bes, hv, hb, rule⟩ := letstar_meaning stdSyn_default (body := [sy "b"]) (by simp) (noDefs_atoms rfl)
+    [(sy "a", num 1), (sy "b", sy "a")] (l₁ := none) (l := none)
+    (rest := lst [lst [lst [sy "a", num 1], lst [sy "b", sy "a"]], sy "b"])
+    (bs := lst [lst [sy "a", num 1], lst [sy "b", sy "a"]]) (bds := [lst [sy "a", num 1], lst [sy "b", sy "a"]])
+    rfl rfl (.cons rfl (.cons rfl .nil)) hx
+  cases hv with
+  | cons h₁ t =>
+    cases t with
+    | cons h₂ t₂ =>
+      cases t₂
+      cases hb with
+      | cons h₃ t₃ =>
+        cases t₃
+        rename_i b₁ b₂ be
+        obtain ⟨n₁, ve₁⟩ := b₁; obtain ⟨n₂, ve₂⟩ := b₂
+        obtain ⟨hn₁, hx₁⟩ := h₁; obtain ⟨hn₂, hx₂⟩ := h₂
+        simp only at hn₁ hn₂ hx₁ hx₂
+        have e₁ := hx₁.prim_inv; have e₂ := hx₂.sym_inv; have e₃ := h₃.sym_inv
+        subst e₁ e₂ e₃ hn₁ hn₂
+        refine ⟨e, hx, _, rule {} 0 _ _ (.cons (Means.prim rfl) (.one (Means.sym (v := .num (.int 1)) ?_)
+          (.one (Means.sym (v := .num (.int 1)) ?_))))⟩
+        · exact Store.lookup_pushFrame_here rfl
+        · exact Store.lookup_pushFrame_here rfl
+
+/-- `cond_arrow_more_meaning` + `cond_else_meaning`: `(cond (#f => zz) (else 7))` is `7` — the receiver
+expression `zz` (unbound: evaluating it would be an error) is NOT evaluated when the test is false -/
+example : ∃ e, XE [[], Interp.grammarScope]
+      (lst [sy "cond", lst [.prim (.bool false) none, sy "=>", sy "zz"], lst [sy "else", num 7]]) e ∧
+    ∃ τ, Means {} 0 e (.num (.int 7)) τ := by
+  obtain ⟨e, hx⟩ := xe_of (lst [sy "cond", lst [.prim (.bool false) none, sy "=>", sy "zz"], lst [sy "else", num 7]])
+  obtain ⟨te, re, er, hte, _, her, rule⟩ := cond_arrow_more_meaning stdSyn_default (l₁ := none) (l := none)
+    (rest := lst [lst [.prim (.bool false) none, sy "=>", sy "zz"], lst [sy "else", num 7]])
+    (c := lst [.prim (.bool false) none, sy "=>", sy "zz"]) (test := .prim (.bool false) none) (a := sy "=>")
+    (r := sy "zz") (clauses := [lst [sy "else", num 7]]) rfl rfl rfl (by simp)
+    (ordinary_sym "zz" (by decide) (by rfl)) hx
+  obtain ⟨bes, hb, rule₂⟩ := cond_else_meaning stdSyn_default (l₁ := none) (l := none)
+    (rest := Datum.ofList none [lst [sy "else", num 7]]) (c := lst [sy "else", num 7]) (el := sy "else")
+    (body := [num 7]) rfl rfl rfl (by simp) (noDefs_atoms rfl) her
+  have e₁ := hte.prim_inv; subst e₁
+  cases hb with
+  | cons h₁ t =>
+    cases t
+    have e₂ := h₁.prim_inv; subst e₂
+    exact ⟨e, hx, _, (rule {} 0 (.bool false) _ (Means.prim rfl)).2 rfl _ _
+      (rule₂ _ _ _ _ (.one (Means.prim rfl)))⟩
+
+/-- the other `cond` theorems on `(cond (t => f))`, `(cond (t))`, `(cond (t) (else 1))`, `(cond (t 1 2))`,
+`(cond (t 1) (else 2))` -/
+example : True := by
+  obtain ⟨e₁, hx₁⟩ := xe_of (lst [sy "cond", lst [sy "t", sy "=>", sy "f"]])
+  have := cond_arrow_last_meaning stdSyn_default (l₁ := none) (l := none) (rest := lst [lst [sy "t", sy "=>", sy "f"]])
+    (c := lst [sy "t", sy "=>", sy "f"]) (test := sy "t") (a := sy "=>") (r := sy "f") rfl rfl rfl rfl
+    (ordinary_sym "f" (by decide) (by rfl)) hx₁
+  obtain ⟨e₂, hx₂⟩ := xe_of (lst [sy "cond", lst [sy "t"]])
+  have := cond_test_last_meaning stdSyn_default (l₁ := none) (l := none) (rest := lst [lst [sy "t"]])
+    (c := lst [sy "t"]) (test := sy "t") rfl rfl hx₂
+  obtain ⟨e₃, hx₃⟩ := xe_of (lst [sy "cond", lst [sy "t"], lst [sy "else", num 1]])
+  have := cond_test_more_meaning stdSyn_default (l₁ := none) (l := none)
+    (rest := lst [lst [sy "t"], lst [sy "else", num 1]]) (c := lst [sy "t"]) (test := sy "t")
+    (clauses := [lst [sy "else", num 1]]) rfl rfl (by simp) hx₃
+  obtain ⟨e₄, hx₄⟩ := xe_of (lst [sy "cond", lst [sy "t", num 1, num 2]])
+  have := cond_clause_last_meaning stdSyn_default (l₁ := none) (l := none) (rest := lst [lst [sy "t", num 1, num 2]])
+    (c := lst [sy "t", num 1, num 2]) (test := sy "t") (body := [num 1, num 2]) rfl rfl (by simp) rfl
+    (by intro a r h; cases h; rfl) (noDefs_atoms rfl) hx₄
+  obtain ⟨e₅, hx₅⟩ := xe_of (lst [sy "cond", lst [sy "t", num 1], lst [sy "else", num 2]])
+  have := cond_clause_more_meaning stdSyn_default (l₁ := none) (l := none)
+    (rest := lst [lst [sy "t", num 1], lst [sy "else", num 2]]) (c := lst [sy "t", num 1]) (test := sy "t")
+    (body := [num 1]) (clauses := [lst [sy "else", num 2]]) rfl rfl (by simp) (by simp)
+    (by intro a r h; cases h) (noDefs_atoms rfl) hx₅
+  trivial
+
+/-- the key of a `case` that is a literal or a variable is not a list -/
+theorem not_list_of_atom {key : Datum} (h : isAtom key = true) : ∀ ks, IsList key ks → ks = [] := by
+  intro ks hk; cases key <;> simp_all [isAtom, IsList, Datum.spine]
+
+/-- the `case` theorems on `(case (f x) ((1) 2))`, `(case k (else => f))`, `(case k (else 1))`,
+`(case k ((1 2) 3))`, `(case k ((1) => f) (else 4))`, `(case k ((1) => f))` -/
+example : True := by
+  obtain ⟨e₁, hx₁⟩ := xe_of (lst [sy "case", lst [sy "f", sy "x"], lst [lst [num 1], num 2]])
+  have := case_list_key_meaning stdSyn_default (l₁ := none) (l := none)
+    (rest := lst [lst [sy "f", sy "x"], lst [lst [num 1], num 2]]) (k := lst [sy "f", sy "x"])
+    (keys := [sy "f", sy "x"]) (clauses := [lst [lst [num 1], num 2]]) rfl rfl (by simp) (by simp) hx₁
+  obtain ⟨e₂, hx₂⟩ := xe_of (lst [sy "case", sy "k", lst [sy "else", sy "=>", sy "f"]])
+  have := case_else_arrow_meaning stdSyn_default (l₁ := none) (l := none)
+    (rest := lst [sy "k", lst [sy "else", sy "=>", sy "f"]]) (key := sy "k") (c := lst [sy "else", sy "=>", sy "f"])
+    (el := sy "else") (a := sy "=>") (r := sy "f") rfl rfl rfl rfl (not_list_of_atom rfl)
+    (ordinary_sym "f" (by decide) (by rfl)) hx₂
+  obtain ⟨e₃, hx₃⟩ := xe_of (lst [sy "case", sy "k", lst [sy "else", num 1]])
+  have := case_else_meaning stdSyn_default (l₁ := none) (l := none) (rest := lst [sy "k", lst [sy "else", num 1]])
+    (key := sy "k") (c := lst [sy "else", num 1]) (el := sy "else") (body := [num 1]) rfl rfl rfl (by simp)
+    (by intro a r h; cases h) (not_list_of_atom rfl) (noDefs_atoms rfl) hx₃
+  obtain ⟨e₄, hx₄⟩ := xe_of (lst [sy "case", sy "k", lst [lst [num 1, num 2], num 3]])
+  have := case_clause_last_meaning stdSyn_default (l₁ := none) (l := none)
+    (rest := lst [sy "k", lst [lst [num 1, num 2], num 3]]) (key := sy "k") (c := lst [lst [num 1, num 2], num 3])
+    (as := lst [num 1, num 2]) (atoms := [num 1, num 2]) (body := [num 3]) rfl rfl rfl (by simp) (by simp)
+    (by intro a r h; cases h) (not_list_of_atom rfl) (noDefs_atoms rfl) hx₄
+  obtain ⟨e₅, hx₅⟩ := xe_of (lst [sy "case", sy "k", lst [lst [num 1], sy "=>", sy "f"], lst [sy "else", num 4]])
+  have := case_arrow_more_meaning stdSyn_default (l₁ := none) (l := none)
+    (rest := lst [sy "k", lst [lst [num 1], sy "=>", sy "f"], lst [sy "else", num 4]]) (key := sy "k")
+    (c := lst [lst [num 1], sy "=>", sy "f"]) (as := lst [num 1]) (atoms := [num 1]) (a := sy "=>") (r := sy "f")
+    (clauses := [lst [sy "else", num 4]]) rfl rfl rfl (by simp) rfl (by simp) (not_list_of_atom rfl)
+    (ordinary_sym "f" (by decide) (by rfl)) hx₅
+  obtain ⟨e₆, hx₆⟩ := xe_of (lst [sy "case", sy "k", lst [lst [num 1], sy "=>", sy "f"]])
+  have := case_arrow_last_meaning stdSyn_default (l₁ := none) (l := none)
+    (rest := lst [sy "k", lst [lst [num 1], sy "=>", sy "f"]]) (key := sy "k")
+    (c := lst [lst [num 1], sy "=>", sy "f"]) (as := lst [num 1]) (atoms := [num 1]) (a := sy "=>") (r := sy "f")
+    rfl rfl rfl (by simp) rfl (not_list_of_atom rfl) (ordinary_sym "f" (by decide) (by rfl)) hx₆
+  trivial
+
+open Ruschm.ListLib Ruschm.ListSpec in
+/-- with the `memv` of `(scheme base)`: the value is `memS key lst` — the first sublist whose `car` is
+`eqv?` to the key, `#f` if the (proper) list has none: a `case` clause is selected by membership -/
+theorem meansApply_memv_std {σ b k lst m} (h : LibFrame σ b) (hm : memS k lst = .ok m) :
+    ∃ τ, MeansApply σ (libProc "memv" b) [k, lst] m τ := by
+  have h' : LibFrame (enter σ) b := ⟨h.frame⟩
+  obtain ⟨σ', happ, _⟩ := C11.memv_spec h' k lst 0
+  rw [hm] at happ
+  exact ⟨_, MeansApply.of_applies happ⟩
+
+open Ruschm.ListLib Ruschm.ListSpec in
+/-- `case_clause_more_meaning` with the library's `memv` (the store `libStore` whose frame 0 holds the
+bindings of `(scheme base)`): `(case 2 ((1 2) 3) (else 4))` is `3` -/
+example : ∃ e, XE [[], Interp.grammarScope]
+      (lst [sy "case", num 2, lst [lst [num 1, num 2], num 3], lst [sy "else", num 4]]) e ∧
+    ∃ τ, Means libStore 0 e (.num (.int 3)) τ := by
+  obtain ⟨e, hx⟩ := xe_of (lst [sy "case", num 2, lst [lst [num 1, num 2], num 3], lst [sy "else", num 4]])
+  obtain ⟨kee, bes, er, hk, hb, _, rule⟩ := case_clause_more_meaning stdSyn_default (l₁ := none) (l := none)
+    (rest := lst [num 2, lst [lst [num 1, num 2], num 3], lst [sy "else", num 4]]) (key := num 2)
+    (c := lst [lst [num 1, num 2], num 3]) (as := lst [num 1, num 2]) (atoms := [num 1, num 2]) (body := [num 3])
+    (clauses := [lst [sy "else", num 4]]) rfl rfl rfl (by simp) (by simp) (by simp)
+    (by intro a r h; cases h) (not_list_of_atom rfl) (noDefs_atoms rfl) hx
+  have e₁ := hk.prim_inv; subst e₁
+  cases hb with
+  | cons h₁ t =>
+    cases t
+    have e₂ := h₁.prim_inv; subst e₂
+    have hlib : LibFrame libStore.erase 0 := ⟨libFrame_libStore.frame⟩
+    obtain ⟨σ₃, happ⟩ := meansApply_memv_std (k := .num (.int 2))
+      (lst := .pair (.num (.int 1)) (.pair (.num (.int 2)) .nil)) (m := .pair (.num (.int 2)) .nil) hlib rfl
+    obtain ⟨f, hf, _, hdefs, _⟩ := libFrame_libStore.frame
+    have hmv : libStore.lookup 0 "memv" = some (libProc "memv" 0) :=
+      Store.lookup_here hf (hdefs "memv" (by decide))
+    exact ⟨e, hx, _, (rule libStore 0 _ _ _ _ _ _ σ₃ hmv (Means.prim rfl) rfl happ).1 rfl _ _
+      (.one (Means.prim rfl))⟩
+
+end Examples
 end Ruschm.C05Meaning
